@@ -20,8 +20,13 @@ typedef struct { uint64_t seen[64]; int n; int stop_after; } Sink;
 static bool c_cb(void *ctx, uint64_t v) { Sink *s = ctx; if (s->n < 64) s->seen[s->n] = v; s->n++; return s->n <= s->stop_after; }
 typedef struct { uint64_t sum; int n; } PodSink;
 static bool c_cb_pod(void *ctx, Pod p) { PodSink *s = ctx; s->sum = s->sum * 31 + p.a * 7 + p.b; s->n++; return true; }
-typedef struct { uint64_t next, end; int after_end; } CIt;
-static int32_t c_it(void *st, uint64_t *out) { CIt *c = st; if (c->next < c->end) { *out = c->next * 5; c->next++; return 0; } c->after_end++; return 1; }
+typedef struct { uint64_t next, end; int after_end; int32_t end_code; } CIt;
+/* "returning 0 for an item": anything else ends the iteration - the end code is the implementor's choice */
+static int32_t c_it(void *st, uint64_t *out) { CIt *c = st; if (c->next < c->end) { *out = c->next * 5; c->next++; return 0; } c->after_end++; return c->end_code; }
+/* an arc implemented on the C side */
+typedef struct { int refs, clones, drops; } CArcObj;
+static const void *carc_clone(const void *p) { CArcObj *o = (CArcObj *)p; o->refs++; o->clones++; return p; }
+static void carc_drop(const void *p) { CArcObj *o = (CArcObj *)p; o->refs--; o->drops++; }
 
 static void t_box(void) {
     n_box++;
@@ -169,7 +174,8 @@ static void t_iter(void) {
     CHECK(i == n && rc != 0, "iterator-end", "advanced %llu times for %llu items (rc %d)", (unsigned long long)i, (unsigned long long)n, rc);
     uint64_t sentinel = 0x1234; rc = it.func(it.iter, &sentinel); CHECK(rc != 0 && sentinel == 0x1234, "iterator-end", "after the end: rc %d, out touched", rc);
     CHECK(rs_iter_state_free(st) == n * 1000 + 2, "iterator-end", "source advanced a different number of times");
-    CIt c = { 0, below(9), 0 }; CIterator_u64 forged = { &c, c_it }; uint64_t e = 0; for (uint64_t j = 0; j < c.end; j++) e = e * 31 + (j * 5 + 1);
+    static const int32_t END_CODES[] = { 1, 1, 2, -1, INT32_MIN, 0x7fffffff, 256 };
+    CIt c = { 0, below(9), 0, END_CODES[below(7)] }; CIterator_u64 forged = { &c, c_it }; uint64_t e = 0; for (uint64_t j = 0; j < c.end; j++) e = e * 31 + (j * 5 + 1);
     uint64_t endn = c.end;
     CHECK(rs_iter_digest(forged) == e && c.next == endn && c.after_end == 1, "iterator-forged", "Rust consumed a C iterator wrongly (next %llu end %llu after_end %d)", (unsigned long long)c.next, (unsigned long long)endn, c.after_end);
 }
@@ -199,6 +205,19 @@ static void t_iter_boxes(void) {
     CHECK(stale_released == 0, "iterator-out-slot-is-output-only", "the next function released the stale contents of the caller's out slot %d times", stale_released);
     CHECK(rs_tracked_live() == live0 && rs_tracked_double() == 0, "iterator-item", "boxed items leaked or released twice");
     CHECK(rs_boxiter_free(st) == 0, "iterator-end", "source not exhausted");
+}
+
+static void t_arc_foreign(void) {
+    n_arc++;
+    CArcObj o = { 1, 0, 0 };
+    CArc_void a = { &o, carc_clone, carc_drop };
+    uint32_t k = (uint32_t)below(6);
+    uint32_t held = rs_arc_foreign_roundtrip(a, k);
+    /* clones: k by CArc::clone plus one CArcSome::clone for every even i */
+    int want_clones = (int)k + (int)((k + 1) / 2);
+    CHECK(held == (uint32_t)want_clones, "arc-foreign", "Rust held %u handles, expected %d", held, want_clones);
+    CHECK(o.clones == want_clones, "arc-foreign-clone-fn", "Rust made %d clones of a C-made arc but called its clone function %d times", want_clones, o.clones);
+    CHECK(o.drops == want_clones + 1 && o.refs == 0, "arc-foreign-drop-fn", "C-made arc: release function called %d times for %d handles, references left %d", o.drops, want_clones + 1, o.refs);
 }
 
 static void t_opt_res(void) {
@@ -239,7 +258,7 @@ int main(int argc, char **argv) {
     for (long i = 0; i < ops; i++) {
         switch (below(9)) {
         case 0: t_box(); break; case 1: t_arc(); break; case 2: t_slice(); break; case 3: t_vec(); break; case 4: t_callback(); break;
-        case 5: t_iter(); t_iter_boxes(); break; case 6: t_opt_res(); break; case 7: t_container(); break; default: t_callback_digest(); break;
+        case 5: t_iter(); t_iter_boxes(); t_arc_foreign(); break; case 6: t_opt_res(); break; case 7: t_container(); break; default: t_callback_digest(); break;
         }
     }
     printf("{\"k\":\"sample\",\"what\":\"C16 operation\",\"case\":\"arc: C clones through clone_fn / releases through drop_fn, interleaved with Rust-side clone/drop, strong count checked after every step\"}\n");
